@@ -330,6 +330,11 @@ pub fn fault_point(site: &'static str) -> std::result::Result<(), rusqlite::Erro
     }
 }
 
+/// a fault point at a place where the shipped code has no error path: only crash kinds act here
+pub fn crash_point(site: &'static str) {
+    let _ = fault_point(site);
+}
+
 // ---------------------------------------------------------------------------------------
 // probes: "this rare branch was reached" counters
 // ---------------------------------------------------------------------------------------
